@@ -238,6 +238,10 @@ def _vkey(k):
     return (type(k).__name__ if not isinstance(k, (int, str)) else "k", k if isinstance(k, (int, str)) else id(k))
 
 
+PREDICATES = {
+    "a": lambda node: str(node.data) in ("a", "Keyed<key_a>"), "all": lambda node: True, "never": lambda node: None,
+    "len1": lambda node: len(node.children) == 1,
+}
 EVAL = rtcheck.Evaluator()
 
 
@@ -301,6 +305,8 @@ def run_case(qual, c, family, spec, tags: dict, args: dict, ev_budget=None):
             from nutree.node import Node
             from nutree.typed_tree import TypedNode
             amap[n] = object.__new__(TypedNode if spec.typed else Node)
+        elif kind == "pred":
+            amap[n] = PREDICATES[val]
         elif kind == "keyed":
             amap[n] = mk(val)
         elif kind == "anykind":
@@ -415,7 +421,7 @@ def run_case(qual, c, family, spec, tags: dict, args: dict, ev_budget=None):
     return "ok", fails, n_clauses
 
 
-def arg_descriptions(tag, spec, tree_nodes_n, clone_lists_n, rng):
+def arg_descriptions(tag, spec, tree_nodes_n, clone_lists_n, rng, pname=""):
     """symbolic descriptions of concrete arguments (re-materialised on a fresh tree per case)"""
     from nutree.typed_tree import ANY_KIND
 
@@ -449,6 +455,10 @@ def arg_descriptions(tag, spec, tree_nodes_n, clone_lists_n, rng):
         return [("lit", v) for v in ("k1", "k2", "".join(["k", "1"]), "kx", "xk1y", "k")]
     if tag == "anykind":
         return [("anykind", None)]
+    if tag == "cb":
+        if pname == "match":  # predicate-style callbacks (pure functions of the node)
+            return [("pred", "a"), ("pred", "all"), ("pred", "never"), ("pred", "len1")]
+        raise rtcheck.NotEvaluable(f"no concrete pool for callback parameter {pname}")
     if tag == "lref":
         return [("childlist", i) for i in range(-1, tree_nodes_n)] + [("clonelist", i) for i in range(clone_lists_n)] + [("lit", [])]
     if tag == "dref":
@@ -475,7 +485,7 @@ def cases_for(qual, c, family, tier, rng, per_tree):
         combos = []
         for tagcombo in itertools.product(*[c.params[n] for n in names]):
             try:
-                pools_ = [arg_descriptions(t, spec, n_nodes, n_cl, rng) for t in tagcombo]
+                pools_ = [arg_descriptions(t, spec, n_nodes, n_cl, rng, pname=n) for n, t in zip(names, tagcombo)]
             except rtcheck.NotEvaluable:
                 continue
             if is_init:
